@@ -188,7 +188,29 @@ def gen_case(rng, kind=None):
         case['r'] = {'pos': pos, 'content': g.hex(), 'chunks': chunking(rng, len(g), len(g) < 3000)}
         lines = lines[:pos] + lines_of(g) + lines[pos:]
         n = len(lines)
+    def newfile():
+        t = rng.below(7)
+        if t == 0:
+            return b''
+        if t == 1:
+            return rng.choice([b'x', b'\n', b'\xff', b'ab'])
+        if t == 2:
+            return content[:len(content) // 2]
+        if t == 3:
+            return content + content_of([body(rng, rng.choice([0, 3, 1024]), 1) for _ in range(rng.range(1, 3))], rng.chance(1, 2))
+        return content_of([body(rng, rng.choice([0, 1, 5, 1023, 4096]), 1) for _ in range(rng.range(0, 4))], rng.chance(1, 2))
+    # lbuf_rd REPLACING lines beg..end of a non-empty buffer (what :e! does with the whole buffer); probe and model only
+    if 'r' not in case and n > 0 and rng.chance(1, 4):
+        g = newfile()
+        rb = rng.choice([0, 0, rng.range(0, n)])
+        re_ = rng.choice([n, n, rng.range(rb, n)])
+        case['rep'] = {'beg': rb, 'end': re_, 'content': g.hex(), 'chunks': chunking(rng, len(g), len(g) < 3000)}
+    # the file is replaced on disk, then :e! and :w! o must reproduce the new file; editor only
+    if n > 0 and rng.chance(1, 3):
+        case['reload'] = newfile().hex()
     b, e = gen_range(rng, n)
+    if 'rep' in case:
+        b, e = 0, n
     case['b'], case['e'] = b, e
     old = gen_old(rng, len(want(lines, b, e)))
     case['old'] = None if old is None else old.hex()
@@ -224,13 +246,25 @@ def expect(case):
             ex['del'] = [x, y]
     ex['f'] = b''.join(lines)
     ex['nfinal'] = len(lines)
+    # what the probe must see (it applies `rep` instead of `r`)
+    ex['ptext'], ex['pt'] = ex['text1'], ex['t']
+    if 'rep' in case:
+        l0 = lines_of(content)
+        rb, re_ = min(case['rep']['beg'], len(l0)), min(case['rep']['end'], len(l0))
+        l1 = l0[:rb] + lines_of(bytes.fromhex(case['rep']['content'])) + l0[re_:]
+        ex['ptext'] = ex['pt'] = b''.join(l1)
+    if 'reload' in case:
+        ex['reload'] = norm(bytes.fromhex(case['reload']))
+        ex['f'] = ex['reload']
     return ex
 
 
 def probe_request(case, ex):
-    r = 'rw %s %d %d %s' % (hexchunks(bytes.fromhex(case['content']), case['chunks']), ex['b'], ex['e'],
+    r = 'rw %s %d %d %s' % (hexchunks(bytes.fromhex(case['content']), case['chunks']), ex['b'], -1 if 'rep' in case else ex['e'],
                             'absent' if case['old'] is None else (case['old'] or '-'))
-    if 'r' in case:
+    if 'rep' in case:
+        r += ' %d:%d %s' % (case['rep']['beg'], case['rep']['end'], hexchunks(bytes.fromhex(case['rep']['content']), case['rep']['chunks']))
+    elif 'r' in case:
         r += ' %d %s' % (case['r']['pos'], hexchunks(bytes.fromhex(case['r']['content']), case['r']['chunks']))
     return r
 
@@ -252,7 +286,11 @@ def run_vi_case(exe, case, ex):
     files = {'f': content}
     if case['old'] is not None:
         files['t'] = bytes.fromhex(case['old'])
-    sc = [b'ec ' + M1, b'%p', b'ec ' + M2]
+    sc = []
+    if 'reload' in case:
+        files['n'] = bytes.fromhex(case['reload'])
+        sc.append(b'!cp n f')           # first: `!` refuses while the buffer is modified, and its terminal output is unbuffered
+    sc += [b'ec ' + M1, b'%p', b'ec ' + M2]
     if 'r' in case:
         files['g'] = bytes.fromhex(case['r']['content'])
         sc.append(b'%dr g' % case['r']['pos'])
@@ -260,12 +298,15 @@ def run_vi_case(exe, case, ex):
         sc.append(b'%d,%dw%s t' % (ex['b'] + 1, ex['e'], b'!' if case['old'] is not None else b''))
     if 'del' in ex:
         sc.append(b'%d,%dd' % tuple(ex['del']))
-    sc.append(case['final'].encode())
+    if 'reload' in case:
+        sc += [b'e!', b'w! o', b'w']
+    else:
+        sc.append(case['final'].encode())
     sc.append(b'q!')
-    r = vlib.run_ex(exe, b'\n'.join(sc) + b'\n', files=files, args=['f'], readback=['f', 't'], timeout=20)
+    r = vlib.run_ex(exe, b'\n'.join(sc) + b'\n', files=files, args=['f'], readback=['f', 't', 'o'], timeout=20)
     if r.timed_out:
-        r = vlib.run_ex(exe, b'\n'.join(sc) + b'\n', files=files, args=['f'], readback=['f', 't'], timeout=60)
-    out = {'crash': r.crashed(), 'rc': r.rc, 'f': r.files.get('f'), 't': r.files.get('t'), 'p': None}
+        r = vlib.run_ex(exe, b'\n'.join(sc) + b'\n', files=files, args=['f'], readback=['f', 't', 'o'], timeout=60)
+    out = {'crash': r.crashed(), 'rc': r.rc, 'f': r.files.get('f'), 't': r.files.get('t'), 'o': r.files.get('o'), 'p': None}
     if M1 in r.out and M2 in r.out:
         out['p'] = r.out.split(M1, 1)[1].split(M2, 1)[0]
     return out
@@ -284,8 +325,12 @@ def check_vi(case, ex, got):
         if got['t'] != ex['t']:
             bad.append(('file written by :%d,%dw is not the concatenation of those lines (previous target: %s)' % (
                 ex['b'] + 1, ex['e'], 'absent' if case['old'] is None else '%d bytes' % (len(case['old']) // 2)), ex['t'], got['t']))
+    if 'reload' in case:
+        if got['o'] != ex['reload']:
+            bad.append(('the file was replaced on disk; after :e! the buffer written with :w! is not the new file (%d bytes)' % (len(case['reload']) // 2),
+                        ex['reload'], got['o']))
     # the final :w / :wq / :x writes the whole buffer over the file it was read from
-    wrote = not (case['final'] == 'x' and 'del' not in ex and 'r' not in case)
+    wrote = 'reload' in case or not (case['final'] == 'x' and 'del' not in ex and 'r' not in case)
     exp_f = ex['f'] if wrote else content
     if got['f'] != exp_f:
         bad.append(('after :%s the file is not the buffer text (read-then-write round trip%s)' % (
@@ -409,6 +454,10 @@ def run(ctx):
         res.count('last line ' + ('with newline' if content.endswith(b'\n') or not content else 'without newline'))
         if 'r' in case:
             res.count('with :r')
+        if 'rep' in case:
+            res.count('with lbuf_rd replacing a range (probe)')
+        if 'reload' in case:
+            res.count('with file replaced on disk + :e!')
         if 'del' in ex:
             res.count('with :d before :w')
         ll = max([len(l) for l in lines_of(content)] or [0])
@@ -421,13 +470,13 @@ def run(ctx):
             res.disagree({'what': 'probe_io answered: ' + out_c[i][:200], 'input': case})
             continue
         got_file, got_text = vlib.unhx(d['file']), vlib.unhx(d['text'])
-        if got_text != ex['text1']:
+        if got_text != ex['ptext']:
             res.violation({'what': 'lbuf_rd: the buffer text is not the file with every line newline-terminated (first difference at byte %s)' % first_diff(got_text, ex['text1']),
-                           'input': case, 'expected': clip(ex['text1']), 'observed': clip(got_text)})
-        if got_file != ex['t']:
+                           'input': case, 'expected': clip(ex['ptext']), 'observed': clip(got_text)})
+        if got_file != ex['pt']:
             res.violation({'what': 'lbuf_wr: the file is not the concatenation of lines [%d,%d) (first difference at byte %s; previous target %s)' % (
-                ex['b'], ex['e'], first_diff(got_file, ex['t']), 'absent' if case['old'] is None else '%d bytes' % (len(case['old']) // 2)),
-                'input': case, 'expected': clip(ex['t']), 'observed': clip(got_file)})
+                ex['b'], ex['e'], first_diff(got_file, ex['pt']), 'absent' if case['old'] is None else '%d bytes' % (len(case['old']) // 2)),
+                'input': case, 'expected': clip(ex['pt']), 'observed': clip(got_file)})
         if d.get('cap') != '1':
             res.count('ln_n >= ln_sz after lbuf_replace (logged only: internal capacity, C05 judges memory safety)')
         if out_m is not None:
@@ -473,7 +522,7 @@ def run(ctx):
                            'expected': clip(e), 'observed': clip(o), 'unshrunk_kind': case.get('kind')})
             continue
         # model vs editor: the model's file for the same range/old is what :a,bw left in t
-        if out_m is not None and ex['e'] > ex['b']:
+        if out_m is not None and ex['e'] > ex['b'] and 'rep' not in case:
             m = parse_kv(out_m[i])
             if 'file' in m and got['t'] is not None and vlib.unhx(m['file']) != got['t']:
                 res.disagree({'what': 'model and vi -s -e differ in the file written by :a,bw', 'input': case,
